@@ -144,6 +144,21 @@ def rule_subs(r):
                 bad = {n for n in names if n not in allowed and n not in join_vars}
                 r.check(not bad and "call_table" not in txt, G, "make_source", "%s = %s" % (name, txt[:70]), st.lineno,
                         "macro text built only from the substituted reference lists" if not bad else "reads %s directly" % sorted(bad))
+    # which macro text is emitted is decided by the base model, never by the caller's table
+    mod = pf.lib("generate")
+    for name, ss in assigns.items():
+        for st in ss:
+            if "#define CALL_" not in pf.unparse(st.value) and name not in ref_vars:
+                continue
+            node, child = mod.parents.get(st), st
+            while node is not None and node is not ms:
+                if isinstance(node, ast.If):
+                    t = pf.unparse(node.test)
+                    r.check("call_table" not in t, G, "make_source", "`%s = ...` emitted under `if %s`" % (name, t[:70]), node.lineno,
+                            "the choice of macro depends on the base model only" if "call_table" not in t else
+                            "the macro is chosen by looking at the caller's (new) table: a reparameterisation whose new parameters "
+                            "have another type silently gets the wrong macro (e.g. volume 1, R_eff 0)")
+                child, node = node, mod.parents.get(node)
     txt = pf.unparse(ms)
     r.check("(subs, translation_vars, valid) = _build_translation(model_info, '_v')" in txt or
             "subs, translation_vars, valid = _build_translation(model_info, '_v')" in txt, G, "make_source",
